@@ -7,6 +7,7 @@ Open Scope N_scope.
 From Blue Require Import Conc.Props_C06.
 Check C06_refines_atomic_store : forall s0 m0 t0 ls st, m0 < s0 -> run (init s0 m0 t0) ls = Some st -> exists sp, srun sinit ls = Some sp.
 Check C06_refinement_is_inductive : forall st sp ls st', Rel st sp -> run st ls = Some st' -> exists sp', srun sp ls = Some sp' /\ Rel st' sp'.
+Check C06_reopen_keeps_refinement : forall st sp fid fsz s0 m0 t0 st1 ls st2, Rel st sp -> reopen st fid fsz s0 m0 t0 = Some st1 -> run st1 ls = Some st2 -> exists sp2, srun (sreopen sp) ls = Some sp2 /\ Rel st2 sp2.
 Check C06_per_key_linearizable : forall s0 m0 t0 pre t r st, m0 < s0 -> run (init s0 m0 t0) (pre ++ [LRetGet t r]) = Some st -> exists pre1 pre2 pre3 k ts, pre = pre1 ++ LInvR t (QGet k) :: pre2 ++ LSnap t ts :: pre3 /\ no_inv t pre2 /\ no_inv t pre3 /\ let V := dbof (pre1 ++ LInvR t (QGet k) :: pre2) in r = db_value V k /\ prefix_of (dbof pre1) V /\ prefix_of V (dbof pre) /\ db_asc (dbof pre).
 Check C06_write_commits_before_return : forall s0 m0 t0 pre t st, m0 < s0 -> run (init s0 m0 t0) (pre ++ [LWRet t]) = Some st -> exists pre1 pre2 pre3 b0 s, pre = pre1 ++ LInvW t b0 :: pre2 ++ LWPublish t s :: pre3 /\ no_inv t pre2 /\ no_inv t pre3 /\ dbof (pre1 ++ LInvW t b0 :: pre2 ++ [LWPublish t s]) = dbof (pre1 ++ LInvW t b0 :: pre2) ++ [(s, dedupe b0)].
 Check C06_failed_write_has_no_effect : forall s0 m0 t0 pre t st, m0 < s0 -> run (init s0 m0 t0) (pre ++ [LWRetF t]) = Some st -> (exists pre1 pre2 b0, pre = pre1 ++ LInvW t b0 :: pre2 /\ no_inv t pre2 /\ (forall s, ~ In (LWPublish t s) pre2)) /\ dbof (pre ++ [LWRetF t]) = dbof pre.
